@@ -273,6 +273,28 @@ wait:
 			calls = append(calls, cl)
 		}
 	}
+	// every file-type value followed by ordinary records (a type the library
+	// refuses must be refused before any record is routed)
+	for t := 0; t < 256; t++ {
+		s := newStream(12, false)
+		s.FileId(0, byte(t%2), byte(t))
+		s.Def(1, 0, 20, []FieldDef{{253, 4, 0x86}, {3, 1, 2}}, nil)
+		s.Data(1, []byte{0, 0, 0, 0x38, 77})
+		s.Def(2, 0, 49, []FieldDef{{0, 2, 0x84}}, nil)
+		s.Data(2, []byte{1, 0})
+		for _, api := range []string{"decode", "chained"} {
+			id++
+			cl := p.runCall(id, api, s.Bytes(), plain, CallOpts{UF: 1, UM: 1}, true)
+			cl.Note = fmt.Sprintf("file type %d", t)
+			if cl.Ret.Panic == 1 {
+				c.report("panic:"+firstWords(cl.Ret.PanicMsg), fmt.Sprintf("%s panics on a file of type %d: %s", api, t, cl.Ret.PanicMsg), cl)
+			}
+			if cl.Ret.Hang == 1 {
+				c.report("hang:"+api, api+" does not return", cl)
+			}
+			calls = append(calls, cl)
+		}
+	}
 	// a sample is validated in full against the three-valued Contract
 	var sample []*Call
 	for i, cl := range calls {
